@@ -596,6 +596,54 @@ int main(int argc, char **argv)
                 const cbcfam *C;
                 for (C = cfams; C->name && strcmp(C->name, fam); C++) ;
                 if (!C->name) return 2;
+                /* C04 "every multiple of 16": ONE decrypt call of more than 4 GiB whose block count is not a multiple of 8
+                   (lengths are 64-bit; 32-bit handling of the length shows only here).  Input and output windows alias
+                   2 MiB memfd patterns; OpenSSL (1 GiB pieces, explicit IV chaining) is the oracle: the final contents of
+                   the two output windows must agree.  Thorough tier only (VERIF_CBC_BIG=1). */
+                if (getenv("VERIF_CBC_BIG")) {
+                        size_t P = 2u << 20;
+                        uint64_t biglen = (1ull << 32) + 16 * (1 + rng_below(&R, 7));   /* 2^32 + 1..7 blocks */
+                        size_t win = ((size_t) biglen + 2 * P) / P * P;
+                        int fi = memfd_create("cin", 0), fo1 = memfd_create("cout1", 0), fo2 = memfd_create("cout2", 0);
+                        uint8_t *bi = MAP_FAILED, *bo1 = MAP_FAILED, *bo2 = MAP_FAILED;
+                        if (fi >= 0 && fo1 >= 0 && fo2 >= 0 && !ftruncate(fi, P) && !ftruncate(fo1, P) && !ftruncate(fo2, P)) {
+                                bi = mmap(NULL, win, PROT_NONE, MAP_PRIVATE | MAP_ANONYMOUS | MAP_NORESERVE, -1, 0);
+                                bo1 = mmap(NULL, win, PROT_NONE, MAP_PRIVATE | MAP_ANONYMOUS | MAP_NORESERVE, -1, 0);
+                                bo2 = mmap(NULL, win, PROT_NONE, MAP_PRIVATE | MAP_ANONYMOUS | MAP_NORESERVE, -1, 0);
+                        }
+                        if (bi != MAP_FAILED && bo1 != MAP_FAILED && bo2 != MAP_FAILED) {
+                                for (size_t o = 0; o < win; o += P) {
+                                        mmap(bi + o, P, PROT_READ | PROT_WRITE, MAP_SHARED | MAP_FIXED, fi, 0);
+                                        mmap(bo1 + o, P, PROT_READ | PROT_WRITE, MAP_SHARED | MAP_FIXED, fo1, 0);
+                                        mmap(bo2 + o, P, PROT_READ | PROT_WRITE, MAP_SHARED | MAP_FIXED, fo2, 0);
+                                }
+                                xs_bytes(seed | 5, bi, P);
+                                for (int b = 0; b < 3; b++) {
+                                        if (!C->dec[b]) continue;
+                                        uint8_t key[32], *ek = abuf(240, 0), *dk = abuf(240, 0), *iv = abuf(16, 0);
+                                        xs_bytes(seed + 11 + b, key, 32); xs_bytes(seed + 21 + b, iv, 16);
+                                        (b == 0 ? _aes_keyexp_128_sse : b == 1 ? _aes_keyexp_192_sse : _aes_keyexp_256_sse)(key, ek, dk);
+                                        memset(bo1, 0x11, P); memset(bo2, 0x22, P);
+                                        C->dec[b](bi, iv, dk, bo1, biglen);
+                                        EVP_CIPHER_CTX *c = EVP_CIPHER_CTX_new();
+                                        int l;
+                                        EVP_DecryptInit_ex(c, b == 0 ? EVP_aes_128_cbc() : b == 1 ? EVP_aes_192_cbc() : EVP_aes_256_cbc(), NULL, key, iv);
+                                        EVP_CIPHER_CTX_set_padding(c, 0);
+                                        for (uint64_t o = 0; o < biglen; o += 1u << 30) {
+                                                uint64_t n = biglen - o < (1u << 30) ? biglen - o : (1u << 30);
+                                                EVP_DecryptUpdate(c, bo2 + o, &l, bi + o, (int) n);
+                                        }
+                                        EVP_DecryptFinal_ex(c, bo2, &l);
+                                        EVP_CIPHER_CTX_free(c);
+                                        if (memcmp(bo1, bo2, P)) monitor("C04-big-cbc-dec-differs-from-oracle", (long) (128 + 64 * b));
+                                        AFREE(ek, 0); AFREE(dk, 0); AFREE(iv, 0);
+                                }
+                                munmap(bi, win); munmap(bo1, win); munmap(bo2, win);
+                        } else monitor("C04-big-cbc-setup-failed", 0);
+                        if (fi >= 0) close(fi);
+                        if (fo1 >= 0) close(fo1);
+                        if (fo2 >= 0) close(fo2);
+                }
                 while (done < nops) {
                         int b = rng_below(&R, 3), dec = rng_below(&R, 2);
                         int bits = 128 + 64 * b;
